@@ -188,6 +188,7 @@ fn make_slot(raw: &RawLookCol, s: usize, comp: Option<usize>, allow_kinds: usize
             true,
             1,
         ),
+        (_, None) => (ColDef::single(s), false, 1),
         (_, Some(q)) => {
             if raw.b >= 0 {
                 // companion on the current row, solved cell on the next row
@@ -565,7 +566,9 @@ pub fn build_lookup(tb: &mut TabB, raw: &RawLookup, max_looking: usize, share: O
         }
         None => {
             let t = tb.alloc("table")?;
-            make_slot(&raw.table, t, comp(tb, 1), 4).0
+            // probe (off by default): PV_C10_TABLE_NEXT=1 also allows next-row terms in the table column, which the
+            // prover's helper computation honours but the constraints (evaluated on the local row only) ignore
+            make_slot(&raw.table, t, comp(tb, 1), if std::env::var("PV_C10_TABLE_NEXT").is_ok() { 6 } else { 4 }).0
         }
     };
     let m = tb.alloc("frequencies")?;
@@ -1088,7 +1091,9 @@ struct Plan {
 pub fn build_ctl_system(raw: &RawCtlSys) -> Result<CtlSystem, String> {
     let lim = ctl_limits();
     let n = 2 + (frac(raw.three, 2));
-    let degree = 2 + frac(raw.degree, 2);
+    // Cross-table lookups need a declared degree of 3: the last-row constraint `combine * Z - filter` has degree 2
+    // and is multiplied by the Lagrange selector of degree n-1, which only fits a quotient of degree factor >= 2.
+    let degree = if std::env::var("PV_C10_CTL_DEGREE2").is_ok() { 2 + frac(raw.degree, 2) } else { 3 };
     let mut log_ns: Vec<usize> = (0..n).map(|t| lim.min_log_n + frac(raw.tables[t].log_n, lim.max_log_n - lim.min_log_n + 1)).collect();
     if frac(raw.same_height, 3) == 0 {
         let l0 = log_ns[0];
@@ -1250,7 +1255,7 @@ fn try_build(raw: &RawCtlSys, plan: &Plan, lim: &StarkLimits) -> Result<CtlSyste
         }
         let extras: Vec<Vec<F>> = if n_extra_max > 0 { bins[n_bins - 1].iter().map(|&j| tuples[j].clone()).collect() } else { vec![] };
         // fill one side: `which[k]` = index of the tuple placed on the k-th selected row
-        let mut fill = |tbs: &mut Vec<TabB>, sp: SidePlan, which: &[usize], rs: &RawSide| -> SideBuilt {
+        let fill = |tbs: &mut Vec<TabB>, sp: SidePlan, which: &[usize], rs: &RawSide| -> SideBuilt {
             let tb = &mut tbs[sp.table];
             let nn = tb.n;
             let stride = 2 * frac(rs.stride, nn / 2) + 1;
